@@ -82,7 +82,11 @@ fn exec_transcript(file: &File, tree: &Tree, source: &str, globals: &BTreeMap<St
 
 /// programs where "which error is reported" has room to vary
 fn special_text(rng: &mut Rng) -> (String, &'static str) {
-    match rng.below(6) {
+    match rng.below(7) {
+        6 => (
+            "(identifier) @id { node n attr (n) idx = (named-child-index @id), txt = (source-text @id), cnt = (named-child-count @id) }\n(argument_list (_) @arg) { node m attr (m) arg_idx = (named-child-index @arg), ty = (node-type @arg) }\n".into(),
+            "syntax_functions_on_every_node",
+        ),
         0 => ("(call function: (_) @zeta arguments: (_) @alpha) @mid { node n }\n".into(), "several_unused_captures"),
         1 => ("(assignment left: (_) @l right: (_) @r) @a { node n }\n(identifier) @q @p { node m }\n".into(), "several_unused_captures"),
         2 => (
@@ -107,6 +111,7 @@ fn special_text(rng: &mut Rng) -> (String, &'static str) {
 pub struct CaseInput {
     pub text: String,
     pub sources: Vec<String>,
+    pub short_lived: Vec<String>,
     pub globals: BTreeMap<String, MVal>,
     pub kind: &'static str,
 }
@@ -123,7 +128,9 @@ pub fn make_case(rng: &mut Rng) -> CaseInput {
         (c.text, c.prog.globals, "generated")
     };
     let sources = (0..3).map(|_| py::gen_any_source(rng, 8, 15)).collect();
-    CaseInput { text, sources, globals, kind }
+    // similar shapes, different children positions: same allocation sizes, recycled addresses
+    let short_lived = (0..5).map(|k| format!("{}f(a{}, b, c)\nx = y\n", "pass\n".repeat(k % 3), k)).collect();
+    CaseInput { text, sources, short_lived, globals, kind }
 }
 
 /// transcript of one case as an isolated run (load + both modes on the first tree)
@@ -259,6 +266,41 @@ impl Prop for C12 {
                     return;
                 }
             }
+            // a sequence of short-lived trees (addresses get recycled): every execution must equal
+            // a run made in a fresh thread (fresh thread-local state) on its own parse
+            for k in 0..5usize {
+                let src = &c.short_lived[k];
+                let expect = {
+                    let text = c.text.clone();
+                    let src2 = src.clone();
+                    let globals = c.globals.clone();
+                    std::thread::spawn(move || {
+                        let functions = stdlib();
+                        match load_transcript(&text) {
+                            Ok((f, _)) => {
+                                let t = parse_python(&src2);
+                                exec_transcript(&f, &t, &src2, &globals, &functions, lazy)
+                            }
+                            Err(e) => e,
+                        }
+                    })
+                    .join()
+                    .unwrap_or_else(|_| "THREAD-PANIC".into())
+                };
+                let got = {
+                    let t = parse_python(src);
+                    exec_transcript(&file, &t, src, &c.globals, &functions, lazy)
+                    // the tree is dropped here
+                };
+                out.evals(2);
+                if got != expect {
+                    let mut cc = cj();
+                    cc["short_lived_source"] = json!(src);
+                    out.violation(&format!("C12:short-lived-tree-differs:{}", mode), &format!("execution #{} on a sequence of short-lived trees differs from a run in a fresh thread: {:?} vs {:?}", k + 1, crate::util::trunc(&got, 300), crate::util::trunc(&expect, 300)), cc);
+                    return;
+                }
+            }
+            out.feat("short_lived_trees_sequence");
             if reference[0].starts_with("ERROR") {
                 out.feat(&format!("stable_error:{}", mode));
             } else if reference[0].starts_with("GRAPH") {
